@@ -1,6 +1,7 @@
 import OxiVerif.Base.Driver
 import OxiVerif.Model.C12
 import OxiVerif.Model.C12Cff
+import OxiVerif.Model.C12Bytes
 /-!
 Driver for C12.  Requests (space separated `key=value` fields after the op):
 
@@ -18,6 +19,11 @@ Implementation answers:
   `err:<class>`
 The model predicts everything except `wf` (structural well-formedness found by the reader), which
 is echoed and judged by the oracle.
+
+Byte level: when a `tt`/`tg` request also carries `flen=<file length> segs=<off>.<hex>,…` (the byte
+runs of the ORIGINAL file the subsetter reads: directory, head/hhea/maxp/post/hmtx/loca, glyphs), the
+implementation's answer ends with ` bytes=<hex of the subset FILE>` and the byte-level model
+(Model/C12Bytes.lean) must reproduce that file byte for byte.
 -/
 open OxiVerif OxiVerif.C12
 
@@ -191,6 +197,49 @@ def subsetLens (f : Font) (init : List Nat) (sl : List (Nat × Nat)) : List Nat 
   | some needed => (sortGids needed).map fun g => (lookupPair sl g).getD 0
   | none => []
 
+
+/-! byte-level requests -/
+
+def unhexAux : List Char → List Nat → Option (List Nat)
+  | [], acc => some acc.reverse
+  | [_], _ => none
+  | a :: b :: rest, acc =>
+    match hexVal? a, hexVal? b with
+    | some x, some y => unhexAux rest ((x * 16 + y) :: acc)
+    | _, _ => none
+
+def parseSegs (s : String) : Option (List (Nat × Bytes)) :=
+  if s = "-" then some []
+  else (s.splitOn ",").mapM fun t =>
+    match t.splitOn "." with
+    | [o, h] => match o.toNat?, unhexAux h.toList [] with
+      | some o, some b => some (o, b)
+      | _, _ => none
+    | _ => none
+
+def parseFile (fs : List String) : Option (Option File) :=
+  match field fs "flen", field fs "segs" with
+  | none, none => some none
+  | some l, some sg =>
+    match l.toNat?, parseSegs sg with
+    | some l, some sg => some (some ⟨l, sg⟩)
+    | _, _ => none
+  | _, _ => none
+
+/-- what the byte-level model appends to the abstract model's answer (and a cross-check that the
+    two models take the same branch and return the same mapping) -/
+def byteSuffix (abstractKind : String) (abstractMap : List (Nat × Nat)) (b : BAns) : String :=
+  match b with
+  | .subset m bytes =>
+    if abstractKind = "subset" ∧ sortPairs m = sortPairs abstractMap then " bytes=" ++ hexField bytes
+    else " bytes=models-disagree"
+  | .full _ => if abstractKind = "full" then "" else " bytes=models-disagree:full"
+  | .fullAll => if abstractKind = "fullAll" then "" else " bytes=models-disagree:fullAll"
+  | .cff => if abstractKind = "cff" then "" else " bytes=models-disagree:cff"
+  | .err => if abstractKind = "err" then "" else " bytes=models-disagree:err"
+  | .gap => " bytes=model-read-a-byte-the-request-does-not-provide"
+  | .stuck => " bytes=model-stuck"
+
 def firstSome {α} (xs : List α) (f : α → Option String) : Option String := xs.findSome? f
 
 def handleTT (fs : List String) (impl : String) : String × String :=
@@ -203,13 +252,26 @@ def handleTT (fs : List String) (impl : String) : String × String :=
     let odd := oddInTree lf (subsetLens f (initNeeded used f.cmap) sl) (modelRows f (initNeeded used f.cmap))
     let pi := parseImpl impl
     let wfEcho := match pi with | .subset _ _ wf _ => wf | _ => "ok"
+    let abstract := subsetChars f size ng (cff == "1") used
+    let bsuffix :=
+      match parseFile fs with
+      | none => " bytes=bad-segs"
+      | some none => ""
+      | some (some file) =>
+        let b := subsetCharsBytes file f.cmap used
+        match abstract with
+        | .full m => byteSuffix "full" m b
+        | .fullAll => byteSuffix "fullAll" [] b
+        | .subset m _ => byteSuffix "subset" m b
+        | .cff => byteSuffix "cff" [] b
+        | .stuck => ""
     let model :=
-      match subsetChars f size ng (cff == "1") used with
+      (match abstract with
       | .full m => "kind=full map=" ++ showPairs m
       | .fullAll => if allc = "?" then "model-needs-allcmap" else "kind=full map=" ++ allc
       | .subset m rows => s!"kind=subset map={showPairs m} n={rows.length} wf={wfEcho} g={showRows rows}"
       | .cff => "kind=cff"
-      | .stuck => "model-stuck"
+      | .stuck => "model-stuck") ++ bsuffix
     -- spec side: the characters the font maps to a glyph it HAS (a cmap entry beyond
     -- numGlyphs is damage the property does not speak about)
     let mapped := used.filterMap fun c => (f.cmap c).bind fun g => if g < ng then some (c, g) else none
@@ -242,11 +304,22 @@ def handleTG (fs : List String) (impl : String) : String × String :=
     let odd := oddInTree lf (subsetLens f (insertNew (used.foldl insertNew []) 0) sl) (modelRows f (insertNew (used.foldl insertNew []) 0))
     let pi := parseImpl impl
     let wfEcho := match pi with | .subset _ _ wf _ => wf | _ => "ok"
+    let abstract := subsetGids f (cff == "1") used
+    let bsuffix :=
+      match parseFile fs with
+      | none => " bytes=bad-segs"
+      | some none => ""
+      | some (some file) =>
+        let b := subsetGidsBytes file used
+        match abstract with
+        | .err => byteSuffix "err" [] b
+        | .subset m _ => byteSuffix "subset" m b
+        | .stuck => ""
     let model :=
-      match subsetGids f (cff == "1") used with
+      (match abstract with
       | .err => "err:subset"
       | .subset m rows => s!"kind=subset map={showPairs m} n={rows.length} wf={wfEcho} g={showRows rows}"
-      | .stuck => "model-stuck"
+      | .stuck => "model-stuck") ++ bsuffix
     let fuel := facts.length + 2
     let damaged := facts.any fun x => x.glyph == .bad || !x.strict
     let fs := strictFont f facts
